@@ -34,13 +34,15 @@ import (
 func NewForwardedModifier() martian.RequestModifier {
 	return martian.RequestModifierFunc(
 		func(req *http.Request) error {
-			if v := req.Header.Get("X-Forwarded-Proto"); v == "" {
+			// An existing value is kept even when an empty header line precedes
+			// it: look at all lines of the header, not only the first.
+			if !hasValue(req.Header["X-Forwarded-Proto"]) {
 				req.Header.Set("X-Forwarded-Proto", req.URL.Scheme)
 			}
-			if v := req.Header.Get("X-Forwarded-Host"); v == "" {
+			if !hasValue(req.Header["X-Forwarded-Host"]) {
 				req.Header.Set("X-Forwarded-Host", req.Host)
 			}
-			if v := req.Header.Get("X-Forwarded-Url"); v == "" {
+			if !hasValue(req.Header["X-Forwarded-Url"]) {
 				req.Header.Set("X-Forwarded-Url", req.URL.String())
 			}
 
@@ -59,4 +61,15 @@ func NewForwardedModifier() martian.RequestModifier {
 
 			return nil
 		})
+}
+
+// hasValue reports whether any of the header lines carries a value.
+func hasValue(lines []string) bool {
+	for _, l := range lines {
+		if l != "" {
+			return true
+		}
+	}
+
+	return false
 }
